@@ -120,12 +120,21 @@ class C06(common.Prop):
             {'layered': '{[#B1][#B2][#B1]}.{#B1=[#PEO][>][#PEO][<],#B2=[<][#PE][#PE][>]}.{#PEO=[>]COC[<],#PE=[>]CC[<]}',
              'flat': '{[#PEO][#PEO][#PE][#PE][#PEO][#PEO]}.{#PEO=[>]COC[<],#PE=[>]CC[<]}', 'coarse_last': False, 'levels': 2,
              'mol': None, 'nparts': 6, 'calls': ['CResolve', 'CResolve', 'CResolve', 'CIter', 'CAll']},
+            # known finding ambiguous_descriptor_choice: unlabelled [>]..[<] on blocks and beads
+            {'layered': '{[#A][#B]}.{#A=[>][#P][#T][<],#B=[>][#T][<]}.{#P=[>]CO[<],#T=[>]CCO[<]}',
+             'flat': '{[#P][#T][#T]}.{#P=[>]CO[<],#T=[>]CCO[<]}', 'coarse_last': False, 'levels': 2, 'mol': None,
+             'nparts': 3, 'directional': True, 'calls': ['CAll']},
         ]
 
     def generate(self, ctx, n):
         rng = ctx.rng
         out = []
         while len(out) < n:
+            if rng.random() < 0.06:
+                c = molgen.directional_case(rng)
+                c['calls'] = [rng.choice(['CResolve', 'CResolve', 'CIter', 'CAll']) for _ in range(rng.randint(1, 3))]
+                out.append(c)
+                continue
             if rng.random() < 0.12:
                 c = molgen.block_case(rng)
                 c['calls'] = [rng.choice(['CResolve', 'CResolve', 'CIter', 'CAll']) for _ in range(rng.randint(1, 4))]
@@ -322,9 +331,16 @@ class C06(common.Prop):
             return 106
         return 0
 
+    def known_class(self, case, impl, code):
+        # unlabelled head-to-tail descriptors on blocks and beads: two compatible pairs per edge, the first-match
+        # choice differs between the layered and the flat description (same root cause as C08's class)
+        if code == 101 and case.get('directional'):
+            return 'ambiguous_descriptor_choice'
+        return None
+
     def case_class(self, case, impl):
         return 'levels=%s %s%s' % (case.get('levels'), 'coarse-last' if case['coarse_last'] else 'atomistic-last',
-                                   (' shared-node' if case.get('squash') else '') + (' virtual-site' if case.get('virtual') else '') + (' reused-names' if case.get('reuse_names') else '')
+                                   (' shared-node' if case.get('squash') else '') + (' virtual-site' if case.get('virtual') else '') + (' unlabelled-head-to-tail' if case.get('directional') else '') + (' reused-names' if case.get('reuse_names') else '')
                                    + (' block|n' if case.get('block') else '') + (' graph-level' if impl.get('gl') else ''))
 
     def nontrivial(self, case, impl):
